@@ -26,6 +26,20 @@ def toGM (m : CSM α) : GCSMatrix α := ⟨(m.major : Int), (m.minor : Int), m.r
 @[simp] theorem toGM_MinorDim (m : CSM α) : (toGM m).MinorDim = (m.minor : Int) := rfl
 @[simp] theorem toGM_Entries (m : CSM α) : (toGM m).Entries = m.rows.map toGs := rfl
 
+/-- the conversions used by the externs of the generated file are the bridge's. -/
+@[simp] theorem entryToG_eq (e : Entry α) : entryToG e = toG e := rfl
+@[simp] theorem entryOfG_toG (e : Entry α) : entryOfG (toG e) = e := by
+  simp [entryOfG, toG]
+@[simp] theorem map_entryOfG_toGs (es : List (Entry α)) : (toGs es).map entryOfG = es := by
+  simp [toGs, Function.comp_def]
+theorem map_entryToG (es : List (Entry α)) : es.map entryToG = toGs es := rfl
+
+/-- model flat-tail statistics ↦ Go `FlatTailStats` (the Go field `DeltaNorm` carries the model's squared
+    delta: see the externs header of the generated file; a nil ranking is the empty list). -/
+def toGStats (s : FlatTailStats α) : GFlatTailStats α :=
+  { DeltaNorm := s.deltaSq, Length := (s.length : Int),
+    Ranking := (s.ranking.getD []).map (fun (i : Nat) => (i : Int)), Threshold := (s.threshold : Int) }
+
 @[simp] theorem toG_Index (e : Entry α) : (toG e).Index = (e.idx : Int) := rfl
 @[simp] theorem toG_Value (e : Entry α) : (toG e).Value = e.val := rfl
 @[simp] theorem toGs_nil : toGs ([] : List (Entry α)) = [] := rfl
